@@ -48,7 +48,7 @@ Qed.
 
 (* leader read of a 3-replica region, everything healthy, a generous budget *)
 Definition c0 : cfg := mkCfg RTLeader false true false false false false 100000%N true
-  [fresh_rep Reachable false false false; fresh_rep Reachable false false false; fresh_rep Reachable false false false] false.
+  [fresh_rep Reachable false false false; fresh_rep Reachable false false false; fresh_rep Reachable false false false] false TpTiKV.
 
 Definition N0 := ONotLeaderHint 0.
 Definition N1 := ONotLeaderHint 1.
@@ -107,7 +107,7 @@ Qed.
 Lemma lasso_attempts k :
   n_attempts (fst (run_before_fix c0 (lasso k) [] [])) = 22 + 2 * k /\ n_backoffs (fst (run_before_fix c0 (lasso k) [] [])) = 0.
 Proof.
-  unfold run_before_fix, run_gen, lasso. change (c_read c0 && negb (c_val c0)) with false. cbv iota.
+  unfold run_before_fix, run_gen, lasso. change (validation_refuses c0) with false. cbv iota.
   destruct (prefix_attempts (cyc' k)) as [A B]. destruct (cyc'_attempts k 20) as [A' B']. rewrite A, B, A', B'. split; lia.
 Qed.
 
